@@ -704,7 +704,7 @@ func genObj(t *rapid.T, schemes []int) Obj {
 // TestC19_RandomHistories: all constructions, 1..4 MAC calls on one object,
 // lengths up to 2 KiB biased to block boundaries, random keys.
 func TestC19_RandomHistories(t *testing.T) {
-	h.Prop(t, h.P{Name: "random-histories", Quick: 30000, Thorough: 600000}, func(t *rapid.T) histCase {
+	h.Prop(t, h.P{Name: "random-histories", Quick: 30000, Thorough: 2400000}, func(t *rapid.T) histCase {
 		o := genObj(t, []int{1, 2, 3, 4, 5, 6, 7, 8})
 		bs := o.bs()
 		n := rapid.IntRange(1, 4).Draw(t, "nops")
@@ -723,7 +723,7 @@ func TestC19_RandomHistories(t *testing.T) {
 // Write (empty, short, to the next block boundary, whole blocks, long), Sum,
 // Reset and MAC in any order.
 func TestC19_CMACStateMachine(t *testing.T) {
-	h.Prop(t, h.P{Name: "cmac-statemachine", Quick: 30000, Thorough: 600000}, func(t *rapid.T) histCase {
+	h.Prop(t, h.P{Name: "cmac-statemachine", Quick: 30000, Thorough: 2400000}, func(t *rapid.T) histCase {
 		o := genObj(t, []int{5})
 		bs := o.bs()
 		n := rapid.IntRange(1, 12).Draw(t, "nops")
